@@ -197,6 +197,23 @@ def rand_sched(rng, nthreads, length, style=None):
     return [t] * rng.randint(1, max(1, length))
 
 
+def take_params(tok, a):
+    """(discarded by the consumer itself, leaving the chunk iterator) for a consumption token `all` | `<k>` | `nth:<k>`"""
+    if tok == "all":
+        return 0, a
+    if tok.startswith("nth:"):
+        k = int(tok[4:])
+        return min(k, a), min(k + 1, a)
+    return 0, min(int(tok), a)
+
+
+def rand_take(rng, n):
+    r = rng.random()
+    if r < 0.15:
+        return "nth:%d" % rng.randint(0, n + 1)
+    return rng.choice(["all", "all", "0", "1", str(rng.randint(0, n + 1))])
+
+
 def pull_op(rng, n_hint, allow_zero=False):
     r = rng.random()
     sizes = [1, 2, 3, max(1, n_hint - 1), max(1, n_hint), n_hint + 1, n_hint + 3]
@@ -207,5 +224,5 @@ def pull_op(rng, n_hint, allow_zero=False):
     if r < 0.45:
         return "nextv"
     n = rng.choice(sizes)
-    k = rng.choice(["all", "all", "0", "1", str(rng.randint(0, n + 1))])
+    k = rand_take(rng, n)
     return "chunk %d %s" % (n, k)
